@@ -576,3 +576,167 @@ func ZZC01Effects() {
 	zzReach("effects-ok")
 	zzWitness("end")
 }
+
+// ---- what print / sprint / repr write for nested values ----
+
+type zzPV struct {
+	kind string // num str bool arr map
+	f    float64
+	s    string
+	b    bool
+	el   []*zzPV
+	keys []string
+}
+
+func zzPVGen(depth, maxDepth int, a, b float64) *zzPV {
+	kinds := []string{"numa", "numb", "str", "bool"}
+	if depth < maxDepth {
+		kinds = append(kinds, "arr", "map", "empty")
+	}
+	switch kinds[zzChoice("pv", len(kinds))] {
+	case "numa":
+		return &zzPV{kind: "num", f: a}
+	case "numb":
+		return &zzPV{kind: "num", f: b}
+	case "str":
+		return &zzPV{kind: "str", s: []string{"", "x y", "q\"t", "ñ"}[zzChoice("pvs", 4)]}
+	case "bool":
+		return &zzPV{kind: "bool", b: zzChoice("pvb", 2) == 1}
+	case "empty":
+		if zzChoice("pve", 2) == 0 {
+			return &zzPV{kind: "arr"}
+		}
+		return &zzPV{kind: "map"}
+	case "arr":
+		v := &zzPV{kind: "arr"}
+		for i, n := 0, 1+zzChoice("pvn", 2); i < n; i++ {
+			v.el = append(v.el, zzPVGen(depth+1, maxDepth, a, b))
+		}
+		return v
+	}
+	v := &zzPV{kind: "map"}
+	keys := []string{"k", "long_key"}
+	for i, n := 0, 1+zzChoice("pvn", 2); i < n; i++ {
+		v.keys = append(v.keys, keys[i])
+		v.el = append(v.el, zzPVGen(depth+1, maxDepth, a, b))
+	}
+	return v
+}
+
+// lit: Evy source of the value; numbers are the variables a and b.
+func (v *zzPV) lit(a float64) string {
+	switch v.kind {
+	case "num":
+		if zzSameBits(v.f, a) {
+			return "a"
+		}
+		return "b"
+	case "str":
+		return strconv.Quote(v.s)
+	case "bool":
+		return strconv.FormatBool(v.b)
+	case "arr":
+		parts := []string{}
+		for _, e := range v.el {
+			parts = append(parts, e.lit(a))
+		}
+		return "[" + strings.Join(parts, " ") + "]"
+	}
+	parts := []string{}
+	for i, e := range v.el {
+		parts = append(parts, v.keys[i]+":"+e.lit(a))
+	}
+	return "{" + strings.Join(parts, " ") + "}"
+}
+
+func (v *zzPV) hasNum() bool {
+	if v.kind == "num" {
+		return true
+	}
+	for _, e := range v.el {
+		if e.hasNum() {
+			return true
+		}
+	}
+	return false
+}
+
+func (v *zzPV) str(repr bool) string {
+	switch v.kind {
+	case "num":
+		return zzN(v.f)
+	case "str":
+		if repr {
+			return strconv.Quote(v.s)
+		}
+		return v.s
+	case "bool":
+		return strconv.FormatBool(v.b)
+	case "arr":
+		parts := []string{}
+		for _, e := range v.el {
+			parts = append(parts, e.str(repr))
+		}
+		return "[" + strings.Join(parts, " ") + "]"
+	}
+	parts := []string{}
+	for i, e := range v.el {
+		parts = append(parts, v.keys[i]+":"+e.str(repr))
+	}
+	return "{" + strings.Join(parts, " ") + "}"
+}
+
+// ZZC01Print: print, sprint, string concatenation with sprint, printf %v and
+// repr of every value tree up to depth PD over symbolic numbers, strings
+// (empty, with blank, with quote, non-ASCII), bools, arrays and maps: the
+// text is the one docs/builtins.md prescribes (strings bare in print, quoted
+// in repr; elements separated by one blank; maps in insertion order).
+func ZZC01Print() {
+	a, b := zzFloat64("a"), zzFloat64("b")
+	zzAssume(!zzSameBits(a, b))
+	v := zzPVGen(0, zzParam("PD", 2), a, b)
+	w := zzPVGen(1, 1, a, b) // a second, flat value: separation of arguments
+	ctx := zzChoice("pctx", 5)
+	var stmt, want string
+	switch ctx {
+	case 0:
+		stmt = "print " + v.lit(a) + " " + w.lit(a) + "\n"
+		want = "print:" + v.str(false) + " " + w.str(false) + "\n"
+	case 1:
+		stmt = "s := sprint " + v.lit(a) + " " + w.lit(a) + "\nprint \"<\"+s+\">\"\n"
+		want = "print:<" + v.str(false) + " " + w.str(false) + ">\n"
+	case 2:
+		if v.hasNum() || w.hasNum() {
+			zzAssume(false) // %v of a number follows Go's %v (exponent notation for large values): C13's subject
+		}
+		stmt = "printf \"%v|%v\\n\" " + v.lit(a) + " " + w.lit(a) + "\n"
+		want = "print:" + v.str(false) + "|" + w.str(false) + "\n"
+	case 3:
+		stmt = "print (repr " + v.lit(a) + ") (repr " + w.lit(a) + ")\n"
+		want = "print:" + v.str(true) + " " + w.str(true) + "\n"
+	case 4:
+		stmt = "x:any\nx = " + v.lit(a) + "\nprint x [x] {k:x}\n"
+		want = "print:" + v.str(false) + " [" + v.str(false) + "] {k:" + v.str(false) + "}\n"
+	}
+	src := "a := 1\nb := 2\n" + stmt + "print a b\n"
+	p := &zzPlat{}
+	ev := NewEvaluator(p)
+	prog := zzMustParse(ev, src, "C01 print")
+	if prog == nil {
+		return
+	}
+	zzSetNum(prog, 0, a)
+	zzSetNum(prog, 1, b)
+	err := ev.Eval(prog)
+	zzAssert(err == nil, "C01 print: program runs")
+	if err != nil {
+		return
+	}
+	got := p.trace[0]
+	if got != want {
+		zzLog("C01 print: " + stmt + " want " + want + " got " + got)
+	}
+	zzAssert(got == want, "C01 print: what the program prints for a nested value is exactly what the definition says")
+	zzReach("print-ok")
+	zzWitness("end")
+}
